@@ -296,7 +296,9 @@ func (q *pool16) aliases(v any) bool {
 	return false
 }
 
-func pred16(i int) func(int) bool {
+func pred16(i int) func(int) bool { return ft1(pred160(i)) }
+
+func pred160(i int) func(int) bool {
 	switch i % 6 {
 	case 0:
 		return func(x int) bool { return x%2 == 0 }
@@ -312,7 +314,9 @@ func pred16(i int) func(int) bool {
 	return func(x int) bool { return x < 0 }
 }
 
-func key16(i int) func(int) int {
+func key16(i int) func(int) int { return ft1(key160(i)) }
+
+func key160(i int) func(int) int {
 	switch i % 6 {
 	case 0:
 		return func(x int) int { return x }
